@@ -107,6 +107,35 @@ def notif_facts(prog: Program, interp: Interp, r: DispatcherRoles) -> Tuple[Dict
             problems.append(('NOTIF-SILENT', f'{role}: falls off the end', f.node.lineno,
                              f'{short(f.qualname)} can end without returning a response or UNSET'))
         facts[role] = sorted(f'{k}:{d}:{"notif" if g is True else "call" if g is False else "any"}' for k, d, g in rets)
+    # responses built in helper methods extracted from the chain must still echo the id of the request being handled:
+    # the id expression has to be `<parameter>.id` of a parameter that receives the request at the call site
+    chain = {r.handle_request.qualname, r.handle_rpc_request.qualname, r.handle_rpc_method.qualname}
+    for f in (r.handle_request, r.handle_rpc_request):
+        sc = FuncScope(f, ty)
+        req = f.params[1].arg
+        for x in walk_own(f.node):
+            if not isinstance(x, ast.Call):
+                continue
+            for k, o in ty.callees(x, sc):
+                if k == 'func' and isinstance(o, FuncInfo) and o.cls is r.cls and o.qualname not in chain:
+                    hsc = FuncScope(o, ty)
+                    for y in walk_own(o.node):
+                        if isinstance(y, ast.Call) and any(k2 == 'ctor' and isinstance(o2, ClassInfo) and o2.qualname == V20 + '.Response'
+                                                           for k2, o2 in ty.callees(y, hsc)):
+                            idv = kwarg(y, 'id', 0)
+                            d = dotted(idv) if idv is not None else None
+                            hp = [p.arg for p in o.params[1:]]
+                            ok = d is not None and d.endswith('.id') and d[:-3] in hp
+                            if ok:
+                                # the parameter must be bound to the request at the call site
+                                idx = hp.index(d[:-3])
+                                arg = x.args[idx] if idx < len(x.args) else kwarg(x, d[:-3])
+                                ok = arg is not None and dotted(arg) == req
+                            if not ok:
+                                problems.append(('ID-ECHO', f'helper {o.name}: response id is not the id of the request being handled', y.lineno,
+                                                 f'{short(o.qualname)} builds the response with id={norm(idv) if idv is not None else "<missing>"}: that is not '
+                                                 f'the id of the request parameter of the element being handled (state kept on the dispatcher is shared by '
+                                                 f'all concurrently handled elements, so one element can be answered with another element\'s id)'))
     return facts, problems
 
 
@@ -687,6 +716,22 @@ def mw_fold_facts(prog: Program, r: DispatcherRoles) -> Tuple[Dict[str, Any], Li
     it = head.ast.iter
     rev = isinstance(it, ast.Call) and dotted(it.func) == 'reversed' and len(it.args) == 1
     src_expr = it.args[0] if rev else it
+    # the stored stack must be the configured sequence itself: list(...)/tuple(...) of the constructor argument
+    attr = dotted(src_expr)
+    if attr and attr.startswith('self.'):
+        for c in prog.mro(r.cls):
+            if isinstance(c, ClassInfo) and '__init__' in c.methods:
+                for st in walk_own(c.methods['__init__'].node):
+                    if isinstance(st, ast.Assign) and dotted(st.targets[0]) == attr:
+                        v = st.value
+                        ok_copy = dotted(v) is not None or (isinstance(v, ast.Call) and dotted(v.func) in ('list', 'tuple') and len(v.args) == 1
+                                                            and dotted(v.args[0]) is not None)
+                        facts['stack'] = norm(v)
+                        if not ok_copy:
+                            problems.append(('MW-FOLD', 'configured middleware stack is altered before the chain is built', st.lineno,
+                                             f'`{norm(st)}`: the stack must be the configured sequence as given (same entries, same order, same '
+                                             f'multiplicity); `{norm(v)}` can drop, reorder or de-duplicate middlewares, so a request passes through '
+                                             f'fewer layers than declared'))
     org = prov.origins(src_expr, f)
     from_mw = any(o[0] == 'param' and o[3] == 'middlewares' for o in org) or \
         any(o[0] == 'param' and 'middleware' in o[3] for o in org)
